@@ -179,6 +179,9 @@ theorem head_response_body_is_empty {k : Nat} {s s' : Streams} {t : Nat} (h : Bo
     (hcl : clOf s k = some .head) : t = 0 :=
   (bodyTrace_head h hcl).1
 
+example : clOf (cli0.sendRequest true [Conn.field ":method" "HEAD", Conn.field ":scheme" "http",
+    Conn.field ":authority" "example.com", Conn.field ":path" "/"] true none).1 0 = some .head := by decide +kernel
+
 /-- non-vacuity: a request announcing 5 octets; 5 octets with END_STREAM are accepted (`two_content_…`
     below runs exactly this history), so `BodyTrace` with `t = 5 = n` is inhabited -/
 example : ∃ s, clOf s 0 = some (.remaining 5) ∧ (s.stream 0).state.isLocalError = false ∧
@@ -206,6 +209,13 @@ theorem refused_head_fails_stream (s : Streams) (k : Nat) (h : HeadersIn) (i : N
     (hrh : (s.stream k).state.isRecvHeaders = true) (hr : (s.recvRecvHeaders k h).2 = .state (.reset i reason init)) :
     FailsStream (s.recvRecvHeaders k h).1 k reason init (s.transition k fun s => rhBody s k h) :=
   refused_head_fails s k h i reason init hrh hr
+
+/-- … and `Recv::recv_headers` refuses in no other way: a connection error PROTOCOL_ERROR (the frame does
+    not fit the stream's state) or a stream error PROTOCOL_ERROR. -/
+theorem head_refusals_are_protocol_errors (s : Streams) (k : Nat) (h : HeadersIn) (e : PErr)
+    (hr : (s.recvRecvHeaders k h).2 = .state e) :
+    e = PErr.libraryGoAway Conn.PROTOCOL_ERROR ∨ ∃ i, e = PErr.libraryReset i Conn.PROTOCOL_ERROR :=
+  recvRecvHeaders_refusals s k h e hr
 
 /-- hypotheses met, conclusion visible: a request head carrying `:status` is refused that way; afterwards
     the stream is reset, RST_STREAM(PROTOCOL_ERROR) is queued and nothing was handed over -/
@@ -439,6 +449,7 @@ end H2V.Props.C13
 #print axioms H2V.Props.C13.head_response_body_is_empty
 #print axioms H2V.Props.C13.recv_data_hands_over_only_its_payload
 #print axioms H2V.Props.C13.refused_head_fails_stream
+#print axioms H2V.Props.C13.head_refusals_are_protocol_errors
 #print axioms H2V.Props.C13.refused_trailers_fail_stream
 #print axioms H2V.Props.C13.data_violating_content_length_is_refused
 #print axioms H2V.Props.C13.refused_data_fails_stream
